@@ -31,7 +31,7 @@ Failing == {"revert", "loop"}
 (* where the value v of a successful message from f to t ends up, t running program k with argument a *)
 (* (a set of <<owner, delta>> pairs; s is the ledger after gas was bought)                            *)
 Moves(s, f, t, k, a, v) ==
-  CASE k = "forward" ->
+  CASE k \in {"forward", "nest"} ->                         \* nest: a failing nested call first, which leaves nothing, then like forward
          IF GetS(s.kind, a) \in Failing
          THEN {<<f, -v>>, <<t, v>>}                     \* the inner call fails, the forwarder keeps the value
          ELSE {<<f, -v>>, <<a, v>>}
@@ -67,6 +67,7 @@ OutcomeAsProgram(s, x) ==
      /\ (k \in Failing => x.status = "0")
      /\ (k = "loop" => x.used = x.gas)                        \* out of gas takes all of it
      /\ (k \in {"", "store", "toggle", "probe"} /\ x.gas >= 60000 => x.status = "1")
+     /\ (k = "nest" /\ x.gas >= 300000 => x.status = "1")     \* the failure of the nested call is not the outer call's
 (* what the probe program saw through the EVM is the ledger's number *)
 ProbeSees(s, x) ==
   (x.to # "" /\ GetS(s.kind, x.to) = "probe" /\ x.status = "1" /\ x.probed >= 0) =>
